@@ -100,7 +100,7 @@ def prog_tla(instrs) -> str:
 
 
 def write_mc(dirpath: str, name: str, instrs, *, module="Durable", spec="Spec", max_crashes=1, max_api_fails=0, max_inv=5,
-             immediate_ext=False, amo_ready_start=False, invariants=(), properties=(), deadlock=False, extra_defs="",
+             immediate_ext=False, amo_ready_start=False, with_paging=False, invariants=(), properties=(), deadlock=False, extra_defs="",
              constraint=None) -> tuple[str, str]:
     os.makedirs(dirpath, exist_ok=True)
     mod = f"MC_{name}"
@@ -112,7 +112,8 @@ def write_mc(dirpath: str, name: str, instrs, *, module="Durable", spec="Spec", 
     cfg = [f"SPECIFICATION MC{spec}", "CONSTANTS", f"  MaxCrashes = {max_crashes}",
            f"  MaxApiFails = {max_api_fails}", f"  MaxInv = {max_inv}",
            f"  ImmediateExt = {'TRUE' if immediate_ext else 'FALSE'}",
-           f"  AmoReadyStart = {'TRUE' if amo_ready_start else 'FALSE'}"]
+           f"  AmoReadyStart = {'TRUE' if amo_ready_start else 'FALSE'}",
+           f"  WithPaging = {'TRUE' if with_paging else 'FALSE'}"]
     cfg += [f"INVARIANT {i}" for i in invariants]
     cfg += [f"PROPERTY {p}" for p in properties]
     if constraint:
